@@ -438,3 +438,102 @@ func hasCallEffect(p *Path, callee string, args ...TM) bool {
 	}
 	return false
 }
+
+// ---- string concatenation, in whichever spelling -------------------------------------------------
+
+// concatParts flattens a string built by + or by fmt.Sprintf with a constant format made of plain
+// text and %s / %v / %d verbs into its parts; adjacent constant parts are merged. Anything else is a
+// single part. fmt.Sprintf("%s.*.%s", a, b) and a + ".*." + b give the same parts.
+func concatParts(t *T) []*T {
+	var raw []*T
+	var walk func(x *T)
+	walk = func(x *T) {
+		if x == nil {
+			return
+		}
+		if x.Op == "binop" && x.Name == "+" && len(x.Args) == 2 {
+			walk(x.Args[0])
+			walk(x.Args[1])
+			return
+		}
+		if x.Op == "call" && x.Name == "fmt.Sprintf" && len(x.Args) == 2 && x.Args[1] != nil && x.Args[1].Op == "lit" {
+			if f, ok := x.Args[0].StrConst(); ok {
+				args := x.Args[1].Args
+				var parts []*T
+				lit := ""
+				ai := 0
+				good := true
+				for i := 0; i < len(f); i++ {
+					if f[i] != '%' {
+						lit += string(f[i])
+						continue
+					}
+					if i+1 >= len(f) {
+						good = false
+						break
+					}
+					i++
+					switch f[i] {
+					case '%':
+						lit += "%"
+					case 's', 'v', 'd':
+						if ai >= len(args) {
+							good = false
+							break
+						}
+						if lit != "" {
+							parts = append(parts, &T{Op: "const", Name: strconvQuote(lit)})
+							lit = ""
+						}
+						parts = append(parts, args[ai])
+						ai++
+					default:
+						good = false
+					}
+					if !good {
+						break
+					}
+				}
+				if good && ai == len(args) {
+					if lit != "" {
+						parts = append(parts, &T{Op: "const", Name: strconvQuote(lit)})
+					}
+					for _, p := range parts {
+						walk(p)
+					}
+					return
+				}
+			}
+		}
+		raw = append(raw, x)
+	}
+	walk(t)
+	// merge adjacent constants
+	var out []*T
+	for _, p := range raw {
+		if s, ok := p.StrConst(); ok && len(out) > 0 {
+			if s0, ok0 := out[len(out)-1].StrConst(); ok0 {
+				out[len(out)-1] = &T{Op: "const", Name: strconvQuote(s0 + s)}
+				continue
+			}
+		}
+		out = append(out, p)
+	}
+	return out
+}
+
+// mConcat: the term is the concatenation of exactly these parts (constants given with mStr).
+func mConcat(ms ...TM) TM {
+	return func(t *T) bool {
+		ps := concatParts(t)
+		if len(ps) != len(ms) {
+			return false
+		}
+		for i, m := range ms {
+			if !m(ps[i]) {
+				return false
+			}
+		}
+		return true
+	}
+}
